@@ -218,6 +218,16 @@ def chain_text(kind, n, deep, cyclic):
             out.append("%s %s\n" % (name(i), name(i + 1)))
         out.append("%s %s\n" % (name(n), last))
         head = name(0)
+    elif kind in ("unit-plural", "unit-prefixed"):
+        # every link goes through name resolution: the next unit is mentioned by its plural / with a prefix in front
+        out.append("bq !\n")
+        if kind == "unit-prefixed":
+            out.append("kq- 1000\n")
+        ref = (lambda x: x + "s") if kind == "unit-plural" else (lambda x: "kq" + x)
+        for i in range(n):
+            out.append("%s 2 %s\n" % (name(i), ref(name(i + 1))))
+        out.append("%s 2 %s\n" % (name(n), ref(last) if cyclic else "bq"))
+        head = name(0)
     elif kind == "prefix":
         for i in range(n):
             out.append("%s- %s\n" % (name(i), name(i + 1)))
@@ -302,6 +312,14 @@ def leg_chains(run, thorough):
                     if head and not cyclic and (n <= 1000 or deep):
                         job["probe"] = head
                     leg.add(job, {"family": "chain", "kind": kind, "n": n, "deep": deep, "cyclic": cyclic, "n_ge_10000": False},
+                            cycle=cyclic, nontrivial="chain:%s:%d:%s:%s" % (kind, n, deep, cyclic))
+    # the same with links that go through name resolution (plural, prefix): short and medium lengths, cyclic and not
+    for kind in ("unit-plural", "unit-prefixed"):
+        for n in (1, 2, 3, 10, 100, 1000):
+            for deep in (True, False):
+                for cyclic in (False, True):
+                    text, head = chain_text(kind, n, deep, cyclic)
+                    leg.add({"defs": text}, {"family": "chain", "kind": kind, "n": n, "deep": deep, "cyclic": cyclic, "n_ge_10000": False},
                             cycle=cyclic, nontrivial="chain:%s:%d:%s:%s" % (kind, n, deep, cyclic))
     # beyond the sizes the property speaks of ("thousands"): recorded, a crash here is the known finding
     for kind in ("unit", "subst"):
